@@ -9,7 +9,7 @@ EXPLANATION = ('Value-flow normal forms of every built-in density compared with 
                'evaluated on), IsotropicGaussian sample / logp (quadratic part, normalising constant -(d/2) ln(2 pi sigma^2), symmetry under from<->to) / '
                'set_seed (overwrites the generator that sample consumes) / unnorm_logp. Tensor plumbing (reshape of literals, expand, squeeze) is '
                'quotiented out; f32-level accuracy and conditioning are not decided.')
-FLOORS = {'obligations': 24}   # counted on the reference tree; fewer instantiated obligations is reported, never passed silently
+FLOORS = {'obligations': 37}   # counted on the reference tree; fewer instantiated obligations is reported, never passed silently
 TECHNIQUE = 'value-flow normal form vs closed-form specification table; taint (dependence) rule; sibling agreement'
 D = 'distributions::'
 HALF = N(1) if False else T.div(T.ONE, N(2))
@@ -25,6 +25,12 @@ def need(ctx, oid, desc, **kw):
 
 
 def run(ctx):
+    from .. import frame
+    frame.shadowing(ctx, 'C15', [D + x for x in ('Gaussian2D', 'DiffableGaussian2D', 'IsotropicGaussian', 'Rosenbrock2D', 'RosenbrockND')])
+    frame.no_override(ctx, 'C15', D + 'GradientTarget', 'unnorm_logp_and_grad',
+                      why='NUTS obtains value and gradient through this provided method; an implementor that overrides it substitutes its own (unanalysed) gradient')
+    frame.check_frame(ctx, 'C15', D + 'IsotropicGaussian', {'std': {D + 'IsotropicGaussian::new'}, 'rng': {D + 'IsotropicGaussian::new', '<distributions::IsotropicGaussian<T> as distributions::Proposal<T, T>>::sample', '<distributions::IsotropicGaussian<T> as distributions::Proposal<T, T>>::set_seed'}},
+                      why='the proposal density uses the same std the noise was drawn with: std is fixed at construction')
     gaussian2d(ctx)
     diffable(ctx)
     rosenbrock(ctx)
